@@ -280,7 +280,7 @@ def r01_1(ctx) -> None:
         nodes = [m for m in cfg.nodes if m.ast is par or (m.kind == "collect" and m.ast is par)]
         at = nodes[0] if nodes else None
         v = ctx.vals.expr(u, n.elts[0], at)
-        if any(a[0] == "libinst" and a[1].endswith("_KeyIter") for a in v) or isinstance(par, ast.ListComp):
+        if any(a[0] == "libinst" and a[1] == ctx.pkg.cls(holder).fq for a in v) or isinstance(par, ast.ListComp):
             entries.append(n)
     ctx.check(len(entries) == 1, "R01.1", u, "merge", "heap entries (holder, position) are built in one place",
               witness=str([norm(e) for e in entries]))
@@ -340,7 +340,7 @@ def r01_1(ctx) -> None:
         for n in xcfg.nodes:
             if n.kind == "op" and n.info.get("op") == "compare" and not n.tag:
                 vals = [ctx.vals.expr(x, o, n) for o in n.info.get("operands", [])]
-                if sum(1 for v in vals if any(a[0] == "libinst" and a[1].endswith("_KeyIter") for a in v)) >= 2:
+                if sum(1 for v in vals if any(a[0] == "libinst" and a[1] == ctx.pkg.cls(holder).fq for a in v)) >= 2:
                     direct.append((x, n))
     ctx.count("merge_units", len(units))
     for x, n in direct:
@@ -419,7 +419,7 @@ def _allowed(ctx, atom, unit_short: str, transforming: bool, depth: int = 0) -> 
     if k == "libyield":
         return None
     if k == "libinst":
-        return None if atom[1].endswith("_KeyIter") else f"library object {atom[1]}"
+        return None if atom[1] == ctx.pkg.cls("heapq._KeyIter").fq else f"library object {atom[1]}"
     if k == "result":
         if transforming and depth == 0:
             return None
